@@ -18,6 +18,8 @@ func runC13(c *Ctx, r *Report) {
 	r.Rule("C13.R6", "each expansion binds its parameters in an environment allocated for that expansion, and macro bodies are evaluated by a fully initialised state (shared with C07.R7)")
 	r.Rule("C13.R8", "attribute preservation: in every arm of ast.Modify that hands a newly allocated node to the callback, every field of the node type is set on the new node (whole-struct copy or field by field)")
 	r.Rule("C13.R7", "the definition sweep examines every statement: in the loop of DefineMacros that removes definitions from the program, an iteration that deletes the element at the loop index (append(s[:i], s[i+1:]...) or slices.Delete(s, i, i+1)) reaches the next loop test with the index unchanged; advancing it skips the statement that moved into place")
+	r.Rule("C13.R9", "parameters are new bindings: every binding call of extendMacroEnv and extendFunctionEnv on the frame they build is SetNoChecks/CreateOrSet with create == true (Set resolves the name outward first and writes through a Reference)")
+	c.checkParamsAreCreated(r, "C13.R9")
 	r.Rule("C02.R2", "(shared) the expanded program prints and re-parses like the hand-substituted one only if operator printers honour precedence")
 
 	modify := c.SSAFn(c.Fn("ast", "Modify"))
